@@ -1,6 +1,7 @@
 """C07 Bit fields partition their bytes MSB-first and never disturb neighbours (bisturi/field.py Bits)."""
 import os, itertools
 from common import *
+import decl, pktcases
 
 PID = 'C07'
 TARGETS = ['Properties/C07.vo', 'Bridge/BitsBridge.vo', 'Bridge/IntBridge.vo']
@@ -182,6 +183,36 @@ def run(tier, seed, rng):
                                      values=x, observed=str(got.hex() if isinstance(got, bytes) else got), required=want.hex(), **where))
             lines.append(f"P {blit(ws)} [{';'.join(zlit(v) for v in x)}] ({'None' if not isinstance(got, bytes) else 'Some ' + blit(got)})" if got != 'X'
                          else "X [8] true")
+    # ---- unpack, assign some members, pack again: the shared integer then starts from the parsed bits (stale state)
+    groups, rmeta = [], []
+    for gid, (ws, g) in enumerate(comps[::3]):
+        pc = dict(end=None, align=None, sbl=None, gp=g, gu=g, vec=True, ann=True,
+                  fields=[{'move': None, 'body': ('bits', w, 0)} for w in ws])
+        G = pktcases.Group({0: pc}, gid)
+        k = sum(ws) // 8
+        for _ in range(4):
+            raw = rng.choice([b'\xff' * k, bytes(rng.randrange(256) for _ in range(k)), bytes(k)])
+            sets = {}
+            for j, w in enumerate(ws):
+                if rng.random() < 0.5:
+                    sets[j] = rng.choice([0, 1, 2 ** w - 1, rng.randrange(2 ** w), 2 ** w, -1])
+            if not sets:
+                sets[0] = 0
+            G.add_repack(0, raw, 0, sets)
+            rmeta.append((ws, g, raw, sets))
+        groups.append(G)
+    recs, rdis = pktcases.run_groups(groups, 'c07r')
+    rp = [r for r in recs if r['kind'] == 'repack']
+    dist['repack'] = len(rp)
+    for r, (ws, g, raw, sets) in zip(rp, rmeta):
+        vals = ref_unpack(ws, raw)
+        for j, v in sets.items():
+            vals[j] = v
+        want = ref_pack(ws, vals).hex()
+        if r['outcome'].get('ok') != want:
+            failures.append(dict(kind='oracle', sig='bits-repack', what='Bits: unpack, assign members, pack: a slice does not hold its own value mod 2^w',
+                                 cls=class_src(ws, g), raw=raw.hex(), assigned={f"f{j}": v for j, v in sets.items()},
+                                 observed=str(r['outcome']), required=want))
     csize = 700
     files = [(f"cases_{i}", HEADER_COQ + "Definition cases : list case := [\n" + ";\n".join(p) + "\n].\nEval vm_compute in (bad 0 cases).\n")
              for i, p in enumerate(shard(lines, csize))]
@@ -191,7 +222,8 @@ def run(tier, seed, rng):
         for j in parse_coq_list(outs[f"cases_{i}"]):
             disagreements.append(dict(kind='correspondence', case=lines[i * csize + j],
                                       what='model Kernel/BitsK.v and bisturi Bits differ on this case (the case shows the implementation result)'))
-    return dict(evaluations=len(lines), distinct_nontrivial=len(set(lines)), classes=len(comps),
+    disagreements += rdis
+    return dict(evaluations=len(lines) + len(recs), distinct_nontrivial=len(set(lines)), classes=len(comps),
                 rule=("all 128 compositions of 8 bits x all 256 byte patterns x generated and generic code; sampled compositions of 16 bits "
                       "and of 24..72 bits with boundary/random patterns and truncated inputs; pack with per-member values drawn from "
                       "{0,1,2^w-1,2^w,2^w+1,-1,-2^w,large,negative large}; runs whose width is not a multiple of 8 (must be rejected at class "
